@@ -181,7 +181,15 @@ pub fn gen_inputs(ctx: &Ctx, rng: &mut Rng, tag: &str) -> Option<(gen::MapCase, 
         max_objects,
         ..Mix::default()
     };
-    let (mc, map) = gen::gen_domain_map(rng, &mx, Domain::Realistic)?;
+    // one case in 40: a map that check_suspicion() rejects but that is cheap to calculate ("for all maps")
+    let (mc, map) = if rng.below(40) == 0 {
+        let file_mode = *rng.pick(&[0u8, 0, 1, 2, 3]);
+        let text = crate::osu::suspicious_cheap_file(rng, file_mode).render();
+        let map = crate::maps::decode(&text)?;
+        (gen::MapCase { text, tag: "suspicious-cheap".into() }, map)
+    } else {
+        gen::gen_domain_map(rng, &mx, Domain::Realistic)?
+    };
     let mode = gen::pick_mode(rng, &map);
     let mut spec = sets::gen_setspec(rng, mode, SetDomain::Game);
     let n = map.hit_objects.len() as u32;
@@ -206,6 +214,9 @@ pub fn case(ctx: &mut Ctx, idx: u64) {
         return;
     };
     let mname = mode_name(mode);
+    if mc.tag == "suspicious-cheap" {
+        ctx.count("class:map-rejected-by-check_suspicion");
+    }
     let d = spec.to_difficulty(mode);
     let mods = spec.mods.to_gamemods(mode);
     let conv = match guard(|| api::convert(&map, mode, &mods)) {
